@@ -200,7 +200,8 @@ CHECK_FILES = {
                      ["%S %d", "%", "%1$S %3$S", "x\\\n   %q", "fine %S %S", "%2$S %1$S"],
                      lambda k, v: f"{k} = {v}\n"),
     "x.dtd": (['<!ENTITY a "text &known; more">', '<!ENTITY b "12">', '<!ENTITY c "width: 3em;">'],
-              ["&unknown; y", "x <b>z", "a\n\n  & b", "fine", "x</i>", "12em", "width: 3"],
+              ["&unknown; y", "x <b>z", "a\n\n  & b", "fine", "x</i>", "12em", "width: 3",
+               "<![CDATA[", "x\n<![CDATA[ y", "<b>bold\n", "<!-- c", "tail <i>\n\n"],
               lambda k, v: f'<!ENTITY {k} "{v}">\n'),
     "x.ftl": (["a = Value\n    .title = T", "b = { $n ->\n   [one] x\n  *[other] y\n }", "c = { a }"],
               ["Value", "V\n    .title = T\n    .title = U", "{ b }", "{ $n ->\n  [one] q\n  [one] r\n *[other] s\n }"],
@@ -236,6 +237,8 @@ def check_positions(chk):
                 cmt = {"x.properties": "# note\n", "x.dtd": "<!-- note -->\n", "x.ftl": "# note\n"}[name]
                 l10n = pad + "".join(("\n" * rng.randint(0, 2)) + (cmt * rng.randint(1, 2) if rng.random() < 0.35 else "")
                                      + fmtline(k, val()) for k in rng.sample(keys, 3))
+                if rng.random() < 0.3:
+                    l10n = l10n.rstrip("\n")  # the last entity ends the file
                 rp, lp = os.path.join(tmp, "ref_" + name), os.path.join(tmp, name)
                 open(rp, "w").write(reftext)
                 open(lp, "w").write(l10n)
@@ -288,7 +291,7 @@ def check_positions(chk):
                                  {"entity_start": start, "reported": [line, col],
                                   "id_start": expected_linecol(l10n, e.key_span[0])})
                         continue
-                    if not (start <= (line, col) <= eof) or col < 1 or line < 1:
+                    if not (start <= (line, col) <= eof):  # the clause is the bound; DTD columns on later value lines are 0-based (C17_dtd_position_exact)
                         # DTD results whose checker position has line 0 (whole-value warnings (0, 0),
                         # XML errors located in the DOCTYPE line of the wrapper document) are
                         # resolved to the line above the value: the listed finding
